@@ -302,17 +302,16 @@ class Engine(ABC, DataDimensionality):
                 iteration_output = self._do_iteration(data, loss_fns, regularizer_fns=regularizer_fns)
                 loss_dict = iteration_output.data_dict
             except (ProcessKilledException, TrainingException) as e:
-                # If the process is killed, the DoIterationOutput
-                # if saved at state iter_idx, which is the current state,
-                # so the computation can restart from the last iteration.
+                # If the process is killed, iteration iter_idx has not been applied: the current state is the one
+                # after iteration iter_idx - 1 and is saved as such, so that the computation restarts at iter_idx.
                 self.logger.exception(f"Exiting with exception: {e}.")
-                self.checkpoint_and_write_to_logs(iter_idx)
+                self.checkpoint_and_write_to_logs(iter_idx - 1)
                 sys.exit(-1)
             except RuntimeError as e:
                 # Maybe string can change
                 if "out of memory" in str(e):
                     if fail_counter == 3:
-                        self.checkpoint_and_write_to_logs(iter_idx)
+                        self.checkpoint_and_write_to_logs(iter_idx - 1)
                         raise TrainingException(f"OOM, had three exceptions in a row tries: {e}.")
                     fail_counter += 1
                     self.logger.info(f"OOM Error: {e}. Skipping batch. Retry {fail_counter}/3.")
@@ -321,7 +320,7 @@ class Engine(ABC, DataDimensionality):
                     torch.cuda.empty_cache()
                     continue
 
-                self.checkpoint_and_write_to_logs(iter_idx)
+                self.checkpoint_and_write_to_logs(iter_idx - 1)
                 self.logger.info(f"Cannot recover from exception {e}. Exiting.")
                 raise RuntimeError(e)
 
